@@ -1,3 +1,4 @@
+import Agd.Tie.TrC12
 import Agd.Lemmas.ResultCache
 import Agd.Tie.C12
 /-!
@@ -572,3 +573,8 @@ theorem custom_same_time_counterexample :
 #print axioms custom_same_time_counterexample
 
 end Agd.ResultCache
+#print axioms Agd.Tie.TrC12.translation_complete
+#print axioms Agd.Tie.TrC12.hp_reset_then_clear
+#print axioms Agd.Tie.TrC12.hp_clear_bumps_generation
+#print axioms Agd.Tie.TrC12.hp_set_only_same_generation
+#print axioms Agd.Tie.TrC12.rl_clear_and_swap_under_lock
